@@ -97,10 +97,24 @@ theorem mlnk_line {s l : Str} {rest : List Str} (hs : splitLines s = l :: rest) 
     simp at hs
     rw [hs.1]; exact mLnkI_nil
 
+/-- what may follow an opening angle bracket: white space / nothing, or a symbol and a comma (`<h0,`). -/
+def LaS (s : Str) : Prop := SepS s ∨ ∃ sym X, (∀ c ∈ sym, symOkI c = true) ∧ s = sym ++ ',' :: X
+
+theorem mlnk_line' {s l : Str} {rest : List Str} (hs : splitLines s = l :: rest) (h : LaS s) : mLnkI l = none := by
+  rcases h with h | ⟨sym, X, hsym, rfl⟩
+  · exact mlnk_line hs h
+  · obtain ⟨l', rest', h'⟩ := splitLines_exists X
+    have h1 := splitLines_cons_noLB ',' (by decide) h'
+    have h2 := splitLines_append_noLB sym (fun c hc => symOkI_noLB (hsym c hc)) h1
+    rw [h2] at hs
+    simp at hs
+    rw [← hs.1]
+    exact mLnkI_sym sym l' hsym
+
 theorem TRI_tok {t : TI} {s : Str} {ts : List TI} (ht : TokOKI t) (hn : t.kind = KI.symbol → Nx s)
-    (hl : t.kind = KI.langle → SepS s) (h : TRI s ts) : TRI (tokTextI t ++ s) (t :: ts) := by
+    (hl : t.kind = KI.langle → LaS s) (h : TRI s ts) : TRI (tokTextI t ++ s) (t :: ts) := by
   obtain ⟨l, rest, a, b, hs, hlr, hr, e⟩ := h
-  obtain ⟨c, r, htt, hst⟩ := stepI_tok t l ht (fun hk => nx_line hs (hn hk)) (fun hk => mlnk_line hs (hl hk))
+  obtain ⟨c, r, htt, hst⟩ := stepI_tok t l ht (fun hk => nx_line hs (hn hk)) (fun hk => mlnk_line' hs (hl hk))
   refine ⟨tokTextI t ++ l, rest, t :: a, b, splitLines_append_noLB _ (tokTextI_noLB t ht) hs, ?_, hr,
     by simp [e]⟩
   intro fuel hf
@@ -115,7 +129,9 @@ theorem TRI_tok {t : TI} {s : Str} {ts : List TI} (ht : TokOKI t) (hn : t.kind =
 space after an opening angle bracket, and between two adjacent symbols. -/
 def GapOK : List (TI × Str) → Prop
   | [] => True
-  | p :: r => TokOKI p.1 ∧ Blk p.2 ∧ (p.1.kind = KI.langle → p.2 ≠ []) ∧
+  | p :: r => TokOKI p.1 ∧ Blk p.2 ∧
+      (p.1.kind = KI.langle → p.2 ≠ [] ∨
+        ∃ u v r', r = u :: v :: r' ∧ u.1.kind = KI.symbol ∧ u.2 = [] ∧ v.1.kind = KI.comma) ∧
       (p.1.kind = KI.symbol → p.2 = [] → ∀ q ∈ r.head?, q.1.kind ≠ KI.symbol) ∧ GapOK r
 
 theorem sepS_of_blk {g : Str} (hne : g ≠ []) (hb : Blk g) (s : Str) : SepS (g ++ s) := by
@@ -151,7 +167,19 @@ theorem TRI_renderG : ∀ (l : List (TI × Str)), GapOK l → TRI (renderG l) (l
           exact nx_cons hs
       · exact nx_of_sepS (sepS_of_blk hg hb _)
     · intro hk
-      exact sepS_of_blk (hla hk) hb _
+      rcases hla hk with hne | ⟨u, v, r', rfl, hu, hug, hv⟩
+      · exact Or.inl (sepS_of_blk hne hb _)
+      · by_cases hg : p.2 = []
+        · refine Or.inr ⟨u.1.text, v.2 ++ renderG r', ?_, ?_⟩
+          · have := hr.1
+            simp only [TokOKI, hu] at this
+            exact this.2
+          · have h1 : tokTextI u.1 = u.1.text := by simp [tokTextI, hu]
+            have hv' := hr.2.2.2.2.1
+            simp only [TokOKI, hv] at hv'
+            have h2 : tokTextI v.1 = [','] := by simp [tokTextI, hv, hv']
+            simp [renderG, hg, hug, h1, h2]
+        · exact Or.inl (sepS_of_blk hg hb _)
 
 /-- the lexer reads back every such layout. -/
 theorem lexIx_renderG (l : List (TI × Str)) (h : GapOK l) : lexIx (renderG l) = some (l.map (·.1)) :=
@@ -225,7 +253,7 @@ theorem gapsInd_ok (n : Nat) : ∀ (ts : List TI) (st : LSt), (∀ t ∈ ts, Tok
       gapsInd_ok n r _ (fun x hx => h x (by simp [hx]))⟩
     · intro hk
       have hk' : t.kind = KI.langle := hk
-      simp [ownGap, hk']
+      exact Or.inl (by simp [ownGap, hk'])
     · intro hk hg q hq
       have hk' : t.kind = KI.symbol := hk
       cases r with
@@ -236,6 +264,72 @@ theorem gapsInd_ok (n : Nat) : ∀ (ts : List TI) (st : LSt), (∀ t ∈ ts, Tok
         intro hu
         have hu' : u.kind = KI.symbol := hu
         simp [ownGap, hk', hu'] at hg
+
+/-! ### the un-indented document layout is one -/
+
+theorem LaOK_cons {t : TI} (ht : t.kind ≠ KI.langle) : ∀ {l : List TI}, LaOK l → LaOK (t :: l)
+  | [], _ => ht
+  | [_], h => ⟨ht, h⟩
+  | [_, _], h => ⟨fun hk => absurd hk ht, h⟩
+  | _ :: _ :: _ :: _, h => ⟨fun hk => absurd hk ht, h⟩
+
+/-- the concatenation of item token lists keeps "every `<` is followed by a symbol and a comma". -/
+theorem LaOK_append : ∀ (a : List TI) {b : List TI}, LaOK a → LaOK b → LaOK (a ++ b)
+  | [], _, _, hb => hb
+  | [t], _, ha, hb => LaOK_cons ha hb
+  | [t, u], _, ha, hb => LaOK_cons ha.1 (LaOK_cons ha.2 hb)
+  | t :: u :: v :: r, b, ha, hb => by
+    have ih := LaOK_append (u :: v :: r) ha.2 hb
+    exact ⟨ha.1, ih⟩
+
+theorem LaOK_flatten : ∀ (tss : List (List TI)), (∀ ts ∈ tss, LaOK ts) → LaOK tss.flatten
+  | [], _ => trivial
+  | ts :: r, h => by
+    simp only [List.flatten_cons]
+    exact LaOK_append ts (h ts (by simp)) (LaOK_flatten r (fun x hx => h x (by simp [hx])))
+
+theorem LaOK_tl : ∀ (t : TI) (l : List TI), LaOK (t :: l) → LaOK l
+  | _, [], _ => trivial
+  | _, [_], h => h.2
+  | _, [_, _], h => h.2
+  | _, _ :: _ :: _ :: _, h => h.2
+
+theorem gapsFlat_map : ∀ (ts : List TI), (gapsFlat ts).map (·.1) = ts
+  | [] => rfl
+  | t :: r => by simp [gapsFlat, gapsFlat_map r]
+
+theorem gapsFlat_ok : ∀ (ts : List TI), (∀ t ∈ ts, TokOKI t) → LaOK ts → GapOK (gapsFlat ts)
+  | [], _, _ => trivial
+  | t :: r, h, hla => by
+    refine ⟨h t (by simp), ?_, ?_, ?_, gapsFlat_ok r (fun x hx => h x (by simp [hx])) (LaOK_tl t r hla)⟩
+    · show Blk (match r.head? with
+        | some u => if (t.kind = KI.symbol ∧ u.kind = KI.symbol) ∨ t.kind = KI.rangle then [' '] else []
+        | none => [])
+      split
+      · split
+        · exact blk_one
+        · exact blk_nil
+      · exact blk_nil
+    · intro hk
+      have hk' : t.kind = KI.langle := hk
+      right
+      match r, hla with
+      | [], hla => exact absurd hk' hla
+      | [_], hla => exact absurd hk' hla.1
+      | u :: v :: r', hla =>
+        obtain ⟨hu, hv⟩ := hla.1 hk'
+        refine ⟨_, _, _, rfl, hu, ?_, hv⟩
+        cases r' <;> simp [gapsFlat, hu, hv]
+    · intro hk hg q hq
+      have hk' : t.kind = KI.symbol := hk
+      cases r with
+      | nil => simp [gapsFlat] at hq
+      | cons u r' =>
+        simp only [gapsFlat, List.head?_cons, Option.mem_def, Option.some.injEq] at hq
+        subst hq
+        intro hu
+        have hu' : u.kind = KI.symbol := hu
+        simp [hk', hu'] at hg
 
 end Verif.C01.IxLayL
 
@@ -248,5 +342,12 @@ theorem lexIx_renderIxInd (n : Nat) (ts : List TI) (hok : ∀ t ∈ ts, TokOKI t
     lexIx (renderIxInd n ts) = some ts := by
   unfold renderIxInd
   rw [lexIx_renderG _ (gapsInd_ok n ts {} hok), gapsInd_map]
+
+/-- the lexer reads the un-indented DOCUMENT layout (items joined by one blank) back, for any list of lexically
+expressible tokens in which every opening angle bracket is followed by a symbol and a comma. -/
+theorem lexIx_renderIxDoc (ts : List TI) (hok : ∀ t ∈ ts, TokOKI t) (hla : LaOK ts) :
+    lexIx (renderIxDoc ts) = some ts := by
+  unfold renderIxDoc
+  rw [lexIx_renderG _ (gapsFlat_ok ts hok hla), gapsFlat_map]
 
 end Verif.C01.IxLex
